@@ -366,7 +366,7 @@ func run(c *simrun.Ctx) *simrun.Violation {
 		return nil
 	}
 	var base *pluginpb.CodeGeneratorRequest
-	src := t.Draw("source", 8)
+	src := t.Draw("source", 16) // 0-3: the four fixed requests; the rest: a random schema set
 	srcName := "random"
 	if src == 3 {
 		base = proto.Clone(baseReqs[3]).(*pluginpb.CodeGeneratorRequest)
